@@ -1572,6 +1572,11 @@ func symLin(v ssa.Value, depth int) lin {
 			return linAtom("load:" + w)
 		}
 	}
+	if c, ok := v.(*ssa.Call); ok {
+		if b, isB := c.Call.Value.(*ssa.Builtin); isB && (b.Name() == "len" || b.Name() == "cap") && len(c.Call.Args) == 1 {
+			return linAtom(b.Name() + "(" + valKey(stripConv(c.Call.Args[0])) + ")") // len(x) evaluated twice is one atom
+		}
+	}
 	return linAtom(valKey(v))
 }
 
